@@ -86,7 +86,7 @@ func faultClaim(prog []ioOp, f refamf.Fault) (inClaim bool, why string, maxUL in
 func genC19Scenario(level string) func(t *rapid.T) *peCase {
 	return func(t *rapid.T) *peCase {
 		r := rapid.IntRange(1, 3).Draw(t, "R")
-		cfg := genConfig(t, cfgOpts{maxUEs: r + 1, smallPSI: true})
+		cfg := genConfig(t, cfgOpts{maxUEs: r + 1, smallPSI: true, preferMNC2: true})
 		cfg.Reg = int64(r)
 		cfg.Pdu = int64(rapid.IntRange(0, r).Draw(t, "E"))
 		if rapid.IntRange(0, 3).Draw(t, "E_full") != 0 {
